@@ -1,5 +1,5 @@
 """Adapter between abstract DIP texts (spec/DipTree.tla lines) and scinumtools.dip."""
-import math, random
+import math, os, random
 
 
 def render_lines(text, rnd=None, layout=0, cond_expr=False, lits=None):
@@ -66,6 +66,7 @@ def render_lines(text, rnd=None, layout=0, cond_expr=False, lits=None):
 
 
 _FAST = [False]
+_COUNT = [0]
 
 
 def speedup():
@@ -85,8 +86,12 @@ def parse_dip(text_str, base_env=None):
     """-> ('ok', env) | ('err', exception name, message)"""
     from scinumtools.dip import DIP
     speedup()
+    # every parser gets its own name: the default name is id(self), which a later object may reuse after the
+    # first was freed, and then its bookkeeping source collides with the one recorded in a base environment
+    _COUNT[0] += 1
+    name = f"verif{os.getpid()}x{_COUNT[0]}"
     try:
-        with DIP(base_env) if base_env is not None else DIP() as p:
+        with DIP(base_env, name=name) if base_env is not None else DIP(name=name) as p:
             p.add_string(text_str)
             env = p.parse()
         return ("ok", env)
